@@ -284,8 +284,18 @@ impl CurFile {
 /// A signature is `base` or `base+T1+T2…` where the Ti are trigger events that the failing case
 /// executed. It matches the known findings when it is listed verbatim, or when every `base+Ti`
 /// is listed (a case that ran into several recorded defects at once).
+/// `pattern` with exactly one `*` (not at the start) matches any text with that prefix and suffix
+fn glob_match(pattern: &str, text: &str) -> bool {
+    match pattern.split_once('*') {
+        Some((pre, post)) if !pre.is_empty() && !post.contains('*') => {
+            text.len() >= pre.len() + post.len() && text.starts_with(pre) && text.ends_with(post)
+        }
+        _ => false,
+    }
+}
+
 fn known_match<'a>(known: &'a [Known], sig: &str) -> Option<&'a Known> {
-    if let Some(k) = known.iter().find(|k| k.sig == sig) {
+    if let Some(k) = known.iter().find(|k| k.sig == sig || glob_match(&k.sig, sig)) {
         return Some(k);
     }
     let mut parts = sig.split('+');
@@ -592,7 +602,7 @@ fn subprocess_case(id: &str, family: &str, bytes: &[u8], tier: Tier, dir: &Path)
         Some(c) => Some(format!("exit-{}", c)),
         None => {
             use std::os::unix::process::ExitStatusExt;
-            Some(format!("crash-signal-{}", out.status.signal().unwrap_or(0)))
+            Some(format!("crash-signal-{}@{}", out.status.signal().unwrap_or(0), family))
         }
     }
 }
@@ -669,7 +679,7 @@ pub fn run_parent(prop: &dyn Property, tier: Tier, seed: u64) -> i32 {
         let f = root.join(&k.replay);
         match read_replay(&f) {
             Some((family, bytes, _)) => match subprocess_case(id, &family, &bytes, tier, &work) {
-                Some(sig) if sig == k.sig => {
+                Some(sig) if sig == k.sig || glob_match(&k.sig, &sig) => {
                     known_still_failing += 1;
                     println!("KNOWN-FINDING: property={} {} [sig={}]", id, k.desc, k.sig);
                 }
@@ -1069,6 +1079,22 @@ pub fn main_with(props: Vec<Box<dyn Property>>) -> i32 {
             }
         };
         println!("{}", prop.render(&family, &bytes));
+        // first in a subprocess: a case that kills the process must not take the replay down
+        let work = verif_root().join("work");
+        let _ = fs::create_dir_all(&work);
+        if let Some(sig) = subprocess_case(&id, &family, &bytes, tier, &work) {
+            if sig.starts_with("crash-signal") || sig == "timeout" || sig.starts_with("exit-") {
+                let known = load_known(&id);
+                return if let Some(k) = known_match(&known, &sig) {
+                    println!("KNOWN-FINDING: property={} {} [sig={}]", id, k.desc, k.sig);
+                    0
+                } else {
+                    println!("VIOLATION property={} replay={}", id, f.display());
+                    println!("  {}: the case kills the process", sig);
+                    1
+                };
+            }
+        }
         return match run_single(prop.as_ref(), &family, &bytes, tier) {
             Verdict::Fail { sig, detail } => {
                 let known = load_known(&id);
